@@ -4,9 +4,11 @@
 Nothing in here decides a verdict: it turns abstract symbols of spec/DebFile.tla (member names,
 file names f1.., blob ids) into real bytes and real bytes back into symbols."""
 import bz2
+import collections
 import gzip
 import hashlib
 import io
+import json
 import lzma
 import os
 import shutil
@@ -95,6 +97,280 @@ def part_of(name):
     return None
 
 
+
+# ------------------------------------------------------------------ payload shapes (spec/DebPayload.tla)
+# TLC enumerates control values and file names at character-CLASS level and says which of them the
+# statement covers ("exact": the parse is the packed text) -- only those are used in packages whose
+# answers are verdicts; everything else is run in the diagnostic payload leg against the code-level
+# prediction TLC printed.  A shape is a string of class letters:
+#   x non-space   b SPACE/TAB   v VT FF   s FS GS RS NEL LS PS   u US NBSP U+1680 U+2003 ...   n LF   r CR
+CLS = {"b": [" ", " ", " ", "\t"],
+       "v": ["\x0b", "\x0c"],
+       "s": ["\x1c", "\x1d", "\x1e", "\x85", "\u2028", "\u2029"],
+       "u": ["\x1f", "\xa0", "\xa0", "\u1680", "\u2003", "\u2007", "\u202f", "\u205f", "\u3000"],
+       "n": ["\n"], "r": ["\r"]}
+CLS_ASCII = {"b": CLS["b"], "v": CLS["v"], "s": ["\x1c", "\x1d", "\x1e"], "u": ["\x1f"], "n": ["\n"], "r": ["\r"]}
+_ASCII_WORD = "abcdefghijklmnopqrstuvwxyzABCDEFGHIJKLMNOPQRSTUVWXYZ0123456789"
+# characters of class x for control values (notes/SIZE_STRESS.md part 2): not NFC/NFKC stable (and their
+# precomposed twins), case-mapping hazards, BOM / joiners / bidi marks / soft hyphen, non-BMP, a lone combining
+# mark, U+200B (not white space)
+X_VALUE = list(_ASCII_WORD) * 2 + list("!\"#$%&'()*+,-./:;<=>?@[\\]^_`{|}~") + [
+    "e\u0301", "\xe9", "A\u030a", "\xc5", "\u212b", "\u2126", "\u03a9", "\uf9d0", "\ufb01", "\uff21", "\u1112\u1161\u11ab",
+    "\xdf", "\u0130", "\u0131", "\u017f", "\u03c2", "\U00010400", "\ufeff", "\u200d", "\u200c", "\xad", "\u200e", "\u200f",
+    "\U0001f600", "\U0010ffff", "\u0301", "\u200b", "\u4e2d", "\u044f", "\xfc"]
+X_VALUE_DIAG = [c for c in X_VALUE if c not in (":", "#", "-")]
+X_NAME = list(_ASCII_WORD) * 2 + list("-_.+#'(),:;=@~%!") + [
+    "e\u0301", "\xe9", "\xfc", "\xdf", "\u4e2d", "\u044f", "\u212b", "\u0130", "\ufb01", "\u200b", "\xad", "\U0001f600", "\ufeff"]
+X_NAME_ASCII = [c for c in X_NAME if ord(c[0]) < 128 and len(c) == 1]
+TRAIL = [chr(c) for c in range(0x400, 0x440)]       # UTF-8 D0 80 .. D0 BF: every trailing byte at a line / token end
+for _pool in (X_VALUE, X_NAME, TRAIL):
+    for _c in _pool:
+        if any(ch.isspace() for ch in _c) or ("/" in _c and _pool is X_NAME):
+            raise core.MachineryError("class x pool contains white space / a slash: %r" % _c)
+for _k, _v in CLS.items():
+    for _c in _v:
+        if not _c.isspace() or (len(("a" + _c + "b").splitlines()) > 1) != (_k in "vsnr"):
+            raise core.MachineryError("class %s of the payload model is concretised wrongly by %r" % (_k, _c))
+RUN_LONG = [255, 256, 257, 1023, 1024, 1025, 4095, 4096, 4097, 8191, 8192, 8193]
+EXTRA_KEYS = ["Comment", "X-Comment", "XB-Note-2", "Origin", "Bugs", "X-Remark", "XS-Testsuite", "Original-Maintainer",
+              "X-Summary", "XC-Hint"]
+
+STATS = collections.Counter()       # per process: what the concretisations drew (evidence only)
+_SH = {}
+
+
+def shape_tables(vals, names):
+    """VAL / NAME lines of MC_DebPayload*.cfg -> the tables the generators draw from (JSON-able)"""
+    def j(seq):
+        return "".join(seq)
+    ve = sorted(j(l["v"]) for l in vals if l["dom"] == "exact")
+    ne = sorted(j(l["nm"]) for l in names if l["dom"] == "exact")
+    tab = {"val_exact": ve, "name_exact": ne,
+           # file names the md5sums format cannot carry (leading white space): for files that are not listed
+           "name_lead": sorted(j(l["nm"]) for l in names if l["dom"] == "unspec"),
+           "val_diag": [dict(l, v=j(l["v"])) for l in vals if l["dom"] != "exact"],
+           "name_diag": [dict(l, nm=j(l["nm"])) for l in names if l["dom"] != "exact"]}
+    if not ve or not ne or not any("s" in v or "v" in v for v in ve) or not any(n[-1] in "bvsu" for n in ne):
+        raise core.MachineryError("payload model printed no usable shapes (%d values, %d names)" % (len(ve), len(ne)))
+    return tab
+
+
+def set_shapes(tab):
+    _SH.clear()
+    _SH.update(tab)
+    ve, ne = tab["val_exact"], tab["name_exact"]
+    _SH["val_look"] = [v for v in ve if "s" in v or "v" in v]            # a look-alike line boundary inside
+    _SH["val_look_multi"] = [v for v in _SH["val_look"] if "n" in v]
+    _SH["val_multi"] = [v for v in ve if "n" in v]
+    _SH["name_trail"] = [n for n in ne if n[-1] in "bvsu"]               # ends in white space
+    _SH["name_look"] = [n for n in ne if "s" in n or "v" in n]
+    _SH["name_x"] = [n for n in ne if n[0] == "x"]
+    _SH["name_lead_ok"] = [n for n in tab["name_lead"] if any(c == "x" for c in n)]
+
+
+def char_class(ch):
+    """abstraction of a character to its class of spec/DebPayload.tla"""
+    if ch == "\n":
+        return "n"
+    if ch == "\r":
+        return "r"
+    if ch in " \t":
+        return "b"
+    if not ch.isspace():
+        return "x"
+    bound = len(("a" + ch + "b").splitlines()) > 1
+    return ("v" if ch in "\x0b\x0c" else "s") if bound else "u"
+
+
+def name_listable(name):
+    """NameDom of DebPayload.tla: a name is "exact" iff it is non-empty, has no LF / CR and its first character
+    is of class x; any other name (leading white space) is never put into an md5sums list whose answer is a verdict"""
+    return bool(name) and char_class(name[0]) == "x" and "\n" not in name and "\r" not in name
+
+
+def load_shapes(work):
+    """replay workers are forked before TLC has printed the shapes: they read them from the run's scratch directory"""
+    path = os.path.join(work, "payload_shapes.json")
+    if _SH.get("_path") != path:
+        with open(path) as f:
+            set_shapes(json.load(f))
+        _SH["_path"] = path
+
+
+def save_shapes(work, tab):
+    with open(os.path.join(work, "payload_shapes.json"), "w") as f:
+        json.dump(tab, f)
+    set_shapes(tab)
+    _SH["_path"] = os.path.join(work, "payload_shapes.json")
+
+
+def _shapes(key):
+    if key not in _SH:
+        raise core.MachineryError("payload shapes of spec/DebPayload.tla are not loaded (%s)" % key)
+    return _SH[key]
+
+
+def take_stats():
+    out = dict(STATS)
+    STATS.clear()
+    return out
+
+
+def _run(rng, pool, n):
+    return "".join(rng.choice(pool) for _ in range(n))
+
+
+def conc_pieces(rng, shape, xpool, cls=CLS, lens=(1, 1, 2, 3, 5, 8), long_run=False, big=(16, 31, 64, 120)):
+    """one string per class symbol; the class of every piece is the symbol's class by construction"""
+    out = []
+    xs = [i for i, c in enumerate(shape) if c == "x"]
+    at_long = rng.choice(xs) if (long_run and xs) else None
+    for i, c in enumerate(shape):
+        if c == "x":
+            n = rng.choice(RUN_LONG) if i == at_long else rng.choice(lens) if rng.random() < 0.93 else rng.choice(big)
+            p = _run(rng, xpool, n)
+            if rng.random() < 0.25:
+                p = p[:-1] + rng.choice(TRAIL) if xpool is not X_NAME_ASCII else p
+            out.append(p or "x")
+        elif c == "b":
+            out.append(_run(rng, cls["b"], 1 if rng.random() < 0.8 else rng.choice([2, 3])))
+        elif c in cls:
+            out.append(rng.choice(cls[c]))
+        else:
+            raise core.MachineryError("unknown payload class %r in shape %r" % (c, shape))
+    return out
+
+
+def gen_shape_value(rng, long_run=False):
+    """a control field value drawn from the shapes TLC calls exact; half of them carry a look-alike line boundary"""
+    r = rng.random()
+    key = "val_look" if r < 0.45 else "val_look_multi" if r < 0.55 else "val_multi" if r < 0.7 else "val_exact"
+    pool = _shapes(key) or _shapes("val_exact")
+    shape = rng.choice(pool)
+    STATS["value:" + ("look-alike" if ("s" in shape or "v" in shape) else "plain")] += 1
+    if long_run:
+        STATS["value:long-run"] += 1
+    return "".join(conc_pieces(rng, shape, X_VALUE, long_run=long_run))
+
+
+def gen_shape_name(rng, dirpart, listed, ascii_only):
+    """a file name drawn from the NAME shapes: exact ones for files the md5sums list may name; a top-level
+    name with leading white space (md5sums cannot carry it) only for a file that is not listed"""
+    r = rng.random()
+    if not dirpart and not listed and r < 0.35 and _shapes("name_lead_ok"):
+        shape = rng.choice(_shapes("name_lead_ok"))
+        STATS["name:leading-ws-unlisted"] += 1
+    else:
+        key = "name_trail" if r < 0.55 else "name_look" if r < 0.75 else "name_exact"
+        pool = _shapes(key)
+        if dirpart:
+            pool = [n for n in pool if n[0] == "x"] or _shapes("name_x")
+        shape = rng.choice(pool)
+    shape = shape[:6]       # a prefix of a name shape without LF / CR that does not start with white space is one too
+    if shape[-1] in "bvsu":
+        STATS["name:trailing-ws"] += 1
+    if "s" in shape or "v" in shape:
+        STATS["name:look-alike"] += 1
+    pieces = conc_pieces(rng, shape, X_NAME_ASCII if ascii_only else X_NAME, CLS_ASCII if ascii_only else CLS,
+                         lens=(1, 2, 3, 6, 9), big=(16, 31))
+    leaf = "".join(pieces)
+    if leaf in (".", ".."):
+        leaf = "x" + leaf
+    return (dirpart + "/" if dirpart else "") + leaf
+
+
+# ------------------------------------------------------------------ block-boundary alignment (notes/SIZE_STRESS.md part 4)
+ALIGN_TARGETS = [512, 1024, 2048, 4096, 4096, 8192, 8192, 8192, 16384, 32768, 65536, 65536, 131072]
+
+
+def _line_ends(data):
+    ends, at = [], data.find(b"\n")
+    while at >= 0:
+        ends.append(at + 1)
+        at = data.find(b"\n", at + 1)
+    return ends
+
+
+def _pick_alignment(rng, ends, max_pad, min_pad=0, max_target=1 << 17):
+    """-> (pad, target, delta, which line) such that after shifting every line end by pad one of them is
+    target + delta (the LF is the last byte of a block, or one before / after it)"""
+    opts = []
+    for t in sorted(x for x in set(ALIGN_TARGETS) if x <= max_target):
+        for d in (-1, 0, 0, 1):
+            below = [e for e in ends if e + min_pad <= t + d]
+            if below and t + d - below[-1] <= max_pad:
+                opts.append((t + d - below[-1], t, d, len(below) - 1))
+    if not opts:
+        return None
+    feasible = {o[1] for o in opts}
+    t = rng.choice([x for x in ALIGN_TARGETS if x in feasible])
+    return rng.choice([o for o in opts if o[1] == t])
+
+
+def align_fields(rng, fields, small=False):
+    """pad the control file so that a line end (between two fields, inside a multi-line value or the end of the
+    file) falls on a power of two; -> (fields, description of the alignment or None)"""
+    data = render_control(fields)
+    ends = _line_ends(data)
+    multi = [i for i, (k, v) in enumerate(fields) if "\n" in v and i < len(fields)]
+    if multi and rng.random() < 0.4:
+        # inside a value: lengthen the first line of a multi-line value; the line ends after it move
+        i = rng.choice(multi)
+        first_end = len(render_control(fields[:i])) + len(("%s: %s" % (fields[i][0], fields[i][1].split("\n")[0])).encode()) + 1
+        later = [e for e in ends if e >= first_end]
+        pick = _pick_alignment(rng, later, 9000 if small else 70000, max_target=8192 if small else 1 << 17)
+        if pick is None:
+            return fields, None
+        pad, t, d, _ = pick
+        k, v = fields[i]
+        head, rest = v.split("\n", 1)
+        fields = fields[:i] + [(k, head + "p" * pad + "\n" + rest)] + fields[i + 1:]
+        where = "inside-value"
+    else:
+        over = len(b"X-Pad: \n")
+        at = rng.randint(1, max(1, len(fields) - 1))
+        start = len(render_control(fields[:at]))
+        later = [e for e in ends if e > start] or ends[-1:]
+        if rng.random() < 0.3:
+            later = later[-1:]          # the very end of the file
+        pick = _pick_alignment(rng, later, 9000 if small else 70000, min_pad=over + 1, max_target=8192 if small else 1 << 17)
+        if pick is None:
+            return fields, None
+        pad, t, d, _ = pick
+        fields = fields[:at] + [("X-Pad", "p" * (pad - over))] + fields[at:]
+        where = "end-of-file" if len(later) == 1 else "between-fields"
+    got = _line_ends(render_control(fields))
+    if t + d not in got:
+        raise core.MachineryError("control file alignment failed: %d not a line end" % (t + d))
+    STATS["aligned:control:" + where] += 1
+    return fields, {"file": "control", "where": where, "line_end": t + d}
+
+
+def align_md5(rng, md5, names, small=False):
+    """lengthen the name of the first listed file so that a line end of the md5sums file falls on a power of
+    two; -> (md5, names, description or None).  The padded name keeps its first and its last character."""
+    if not md5:
+        return md5, names, None
+    ends = _line_ends(render_md5(md5))
+    pick = _pick_alignment(rng, ends, 9000 if small else 3000, max_target=8192 if small else 1 << 17)
+    if pick is None:
+        return md5, names, None
+    pad, t, d, _ = pick
+    old = md5[0][0]
+    new = old[:1] + "p" * pad + old[1:]
+    taken = set(names.values())
+    if pad == 0:
+        new = old
+    elif new in taken or any(x.startswith(new + "/") or new.startswith(x + "/") for x in taken):
+        return md5, names, None
+    md5 = [(new if n == old else n, h) for n, h in md5]
+    names = {m: (new if n == old else n) for m, n in names.items()}
+    if t + d not in _line_ends(render_md5(md5)):
+        raise core.MachineryError("md5sums alignment failed: %d not a line end" % (t + d))
+    STATS["aligned:md5sums"] += 1
+    return md5, names, {"file": "md5sums", "line_end": t + d, "lines": len(md5)}
+
+
 # ------------------------------------------------------------------ concrete content
 
 DIRS = ["", "", "usr/bin", "usr/share/doc/pkg", "etc", "usr/lib/x86_64-linux-gnu", "opt/my dir",
@@ -142,10 +418,14 @@ def gen_long_name(rng, total):
     return "L" + p[1:-1] + "z" if len(p) > 1 else "L"
 
 
-def gen_names(rng, model_names, canonical=False, long_names=False):
+def gen_names(rng, model_names, canonical=False, long_names=False, listed=None):
     """real path for every model file name (incl. 'absent'); no real name is a maintainer-script /
     control name, equals or is a directory of another one, or starts with '/' or './'.
-    long_names: about half of the names get a length around the tar limits (100 / 155 / 255, beyond)"""
+    long_names: about half of the names get a length around the tar limits (100 / 155 / 255, beyond).
+    About 40 % of the names are concretisations of the NAME shapes of spec/DebPayload.tla (white space of every
+    kind and look-alike line boundaries inside and at the END of a name; at the start of the leaf below a
+    directory; at the start of a top-level name only for files outside `listed`, the model names the md5sums
+    list may mention -- None: all)"""
     ascii_only = not UTF8_FS
     out = {}
     used = set(CTRL_NAMES)       # file paths taken
@@ -178,8 +458,11 @@ def gen_names(rng, model_names, canonical=False, long_names=False):
             d = rng.choice(DIRS)
             if ascii_only and any(ord(c) > 127 for c in d):
                 continue
-            leaf = gen_leaf(rng, ascii_only) + rng.choice(["", "", ".so.1", ".txt", ".gz", " (copy)"])
-            p = (d + "/" if d else "") + leaf
+            if rng.random() < 0.4:
+                p = gen_shape_name(rng, d, listed is None or m in listed, ascii_only)
+            else:
+                leaf = gen_leaf(rng, ascii_only) + rng.choice(["", "", ".so.1", ".txt", ".gz", " (copy)"])
+                p = (d + "/" if d else "") + leaf
             if fresh(p):
                 break
         else:
@@ -192,7 +475,15 @@ def gen_names(rng, model_names, canonical=False, long_names=False):
         p = "no/such file.txt"
         while not canonical or not fresh(p):
             p = rng.choice(["no such dir/", "usr/bin/", "", "etc/"]) + gen_leaf(rng, ascii_only)
-            if fresh(p):
+            twins = sorted(v for k, v in out.items() if k not in CTRL_NAMES)
+            if twins and rng.random() < 0.35:
+                # a packed name plus / minus white space at its end is another file: not packed
+                t = rng.choice(twins)
+                p = t + rng.choice(CLS_ASCII["b"] + CLS_ASCII["u"] if ascii_only else CLS["b"] + CLS["u"] + CLS["v"])
+                if t[-1].isspace() and rng.random() < 0.5:
+                    p = t.rstrip()
+                STATS["name:absent-twin"] += 1
+            if p and fresh(p):
                 break
         out["absent"] = p
     return out
@@ -204,7 +495,11 @@ def gen_big_blob(rng, stress):
     if rng.random() < 0.8:
         return rng.randbytes(n)
     unit = ("%d line of text\n" % rng.randrange(10 ** 9)).encode()
-    return (unit * (n // len(unit) + 1))[:n]
+    text = bytearray((unit * (n // len(unit) + 1))[:n])
+    for t in (4096, 8192, 65536, 131072):       # a line end exactly at a block end (text-mode readers)
+        if t <= n:
+            text[t - 1] = 10
+    return bytes(text)
 
 
 def gen_fillers(rng, stress, taken):
@@ -270,7 +565,16 @@ def gen_fields(rng, canonical=False):
     desc = "short text" if canonical else "short %d text: with colon" % rng.randrange(1000)
     if not canonical and rng.random() < 0.7:
         desc += "\n long line one\n .\n after the blank é\n  indented more"
+    if not canonical and rng.random() < 0.15:
+        desc = gen_shape_value(rng)
     base.append(("Description", desc))
+    if not canonical and rng.random() < 0.6:
+        # values drawn from the shapes spec/DebPayload.tla calls exact: look-alike line boundaries (VT FF FS GS RS
+        # NEL LS PS) followed by a blank, Unicode white space, multi-line values -- at any position, also last
+        have = {k.lower() for k, _ in base}
+        for key in rng.sample(EXTRA_KEYS, rng.choice([1, 1, 2, 3])):
+            if key.lower() not in have:
+                base.insert(rng.randint(0, len(base)), (key, gen_shape_value(rng, long_run=rng.random() < 0.04)))
     return base
 
 
@@ -286,7 +590,7 @@ def render_md5(md5):
 class Conc:
     """one concretisation of an abstract package content pkg = {c: {name: blob id}, d: {...}, m: {name: sum id}}"""
 
-    def __init__(self, rng, pkg, qnames, canonical=False, names=None, stress=0):
+    def __init__(self, rng, pkg, qnames, canonical=False, names=None, stress=0, align=True):
         """stress 1 / 2 (size dimension, notes/SIZE_STRESS.md): data blobs and some scripts of 8 KiB..64 KiB /
         128 KiB..1 MiB (mostly incompressible, so that the compressed parts exceed the decompressors' read
         buffers), 30 / 100+ padding members, file names around the tar limits"""
@@ -295,8 +599,14 @@ class Conc:
         self.stress = stress
         # names: share the real file names with another package (same names, different contents)
         self.names = names if names is not None else gen_names(rng, set(qnames) | set(d) | set(m), canonical,
-                                                                long_names=bool(stress))
+                                                                long_names=bool(stress), listed=set(m))
         self.fields = gen_fields(rng, canonical)
+        self.aligned = []
+        # block-boundary alignment (notes/SIZE_STRESS.md part 4): every stressed and some ordinary concretisations
+        do_align = not canonical and align and (stress or rng.random() < 0.06)
+        if do_align:
+            self.fields, info = align_fields(rng, self.fields, small=not stress)
+            self.aligned += [info] if info else []
         self.blob = {}
         taken = set()
         for n, b in sorted(pkg["c"].items()):
@@ -327,6 +637,9 @@ class Conc:
         self.md5 = [(self.names[n], self.sum[s]) for n, s in sorted(m.items())]
         if not canonical:
             rng.shuffle(self.md5)
+        if do_align and names is None:
+            self.md5, self.names, info = align_md5(rng, self.md5, self.names, small=not stress)
+            self.aligned += [info] if info else []
         self.blob[pkg["c"]["control"]] = render_control(self.fields)
         if "md5sums" in pkg["c"]:
             self.blob[pkg["c"]["md5sums"]] = render_md5(self.md5)
@@ -349,6 +662,7 @@ class Conc:
         c.blob = {}
         c.sum = {}
         c.stress = 0
+        c.aligned = []
         c._tars = {}
         return c
 
@@ -379,7 +693,8 @@ class Conc:
                 "md5": [list(x) for x in self.md5], "cfiles": [list(x) for x in self.cfiles],
                 "dfiles": [list(x) for x in self.dfiles], "tarfmt": self.tarfmt,
                 "sum": {str(k): v for k, v in self.sum.items()}, "level": getattr(self, "level", 1),
-                "stress": getattr(self, "stress", 0)}
+                "stress": getattr(self, "stress", 0), "aligned": getattr(self, "aligned", []),
+                "ar_align": getattr(self, "ar_align", None)}
 
     @classmethod
     def from_json(cls, j):
@@ -394,6 +709,8 @@ class Conc:
         c.sum = {int(k): v for k, v in j.get("sum", {}).items()}
         c.level = j.get("level", 1)
         c.stress = j.get("stress", 0)
+        c.aligned = j.get("aligned", [])
+        c.ar_align = j.get("ar_align")
         c._tars = {}
         return c
 
@@ -435,7 +752,39 @@ def member_payload(name, conc):
 
 
 def build_deb(mem, conc, style="dpkg"):
-    return b"!<arch>\n" + b"".join([conc.chunk(n, style) for n in mem])
+    """conc.ar_align = [foreign member name, target]: that member is filled so that the DATA of the member
+    after it starts exactly at the target offset (a power of two) of the package file"""
+    al = getattr(conc, "ar_align", None)
+    if not al or al[0] not in mem[:-1]:
+        return b"!<arch>\n" + b"".join([conc.chunk(n, style) for n in mem])
+    out = [b"!<arch>\n"]
+    at = 8
+    for n in mem:
+        if n == al[0]:
+            size = al[1] - 120 - at
+            if size < 0 or size % 2:
+                raise core.MachineryError("ar alignment impossible: member %r at %d, target %d" % (n, at, al[1]))
+            ch = ar_chunk(n, (b"pad " * (size // 4 + 1))[:size], style)
+        else:
+            ch = conc.chunk(n, style)
+        out.append(ch)
+        at += len(ch)
+    return b"".join(out)
+
+
+def plan_ar_align(rng, mem, conc, style="dpkg", pad_name="foo"):
+    """put a foreign member in front of one of the parts and choose the power of two its data shall start at"""
+    parts = [i for i, n in enumerate(mem) if part_of(n)]
+    if pad_name in mem or not parts:
+        return mem
+    i = rng.choice(parts)
+    at = 8 + sum(len(conc.chunk(n, style)) for n in mem[:i])
+    targets = [t for t in sorted(set(ALIGN_TARGETS)) if t >= at + 120 and t - at <= 140000]
+    if not targets:
+        return mem
+    conc.ar_align = [pad_name, rng.choice(targets[:4])]
+    STATS["aligned:ar-member-start"] += 1
+    return mem[:i] + [pad_name] + mem[i:]
 
 
 # ------------------------------------------------------------------ dpkg-deb as an independent packer
